@@ -500,6 +500,8 @@ def run_case(prog, wants, cfg, rot, modpath=None, verbose=0, reportchoice=None, 
         warnings.simplefilter('ignore')
         dt = doctest_example.DocTest(text, modpath=modpath, callname='case', mode=cfg['mode'])
         dt.config['default_runtime_state'] = opts_to_config(cfg['opts'])
+        import copy as _copy
+        given_defaults = _copy.deepcopy(dt.config['default_runtime_state'])     # the front ends hand the SAME dict to every doctest
         dt.config['colored'] = colored
         if reportchoice:
             dt.config['reportchoice'] = reportchoice
@@ -508,6 +510,7 @@ def run_case(prog, wants, cfg, rot, modpath=None, verbose=0, reportchoice=None, 
         old_filters = list(warnings.filters)
         old_showwarning = warnings.showwarning
         old_path = list(sys.path)
+        old_path_obj = sys.path
         sink = io.StringIO()
         sys.stdout = sink
         outer = sys.stdout
@@ -552,6 +555,7 @@ def run_case(prog, wants, cfg, rot, modpath=None, verbose=0, reportchoice=None, 
             sys.stdout, sys.stderr = old_stdout, old_stderr
             warnings.filters[:] = old_filters
             warnings.showwarning = old_showwarning
+            sys.path = old_path_obj             # (an imported module may have bound sys.path to a new list)
             sys.path[:] = old_path
     obs['trace'] = list(T)
     fp = dt.failed_part
@@ -578,6 +582,8 @@ def run_case(prog, wants, cfg, rot, modpath=None, verbose=0, reportchoice=None, 
                           'NREQ': len(gs['REQUIRES']) if isinstance(gs['REQUIRES'], (set, frozenset, list)) else repr(gs['REQUIRES'])}
         from xdoctest import directive as _d
         obs['defaults_untouched'] = (_d.DEFAULT_RUNTIME_STATE['REQUIRES'] == set() and not _d.DEFAULT_RUNTIME_STATE['SKIP'])
+    # the default options given to the run are what the next doctest of the session starts from: a run must not change them
+    obs['given_defaults_untouched'] = dt.config['default_runtime_state'] == given_defaults
     obs['dt'] = dt
     return obs
 
@@ -665,6 +671,8 @@ def compare(exp, obs, wants):
         bad.append(('final_persistent_state', exp['final_g'], obs['final_g']))
     if obs.get('defaults_untouched') is False:
         bad.append(('DEFAULT_RUNTIME_STATE_untouched', True, False))
+    if obs.get('given_defaults_untouched') is False:
+        bad.append(('default_options_of_the_session_untouched', True, False))
     if not obs.get('stdout_restored', True):
         bad.append(('stdout_restored', True, False))
     if not obs.get('stderr_restored', True):
@@ -782,7 +790,9 @@ def _ensure_failmods():
                            ('xdv_fail_rt', 'import sys\nsys.path.append("/xdv/leftover")\nraise RuntimeError("late")\n'),
                            # the module moves the temporary search-path entry before it fails
                            ('xdv_fail_ins', 'import sys\nsys.path.insert(0, "/xdv/leftover")\nraise RuntimeError("late")\n'),
-                           ('xdv_fail_ins2', 'import sys\nsys.path.insert(0, "/xdv/leftover")\nimport xdv_no_such_module_qq\n')):
+                           ('xdv_fail_ins2', 'import sys\nsys.path.insert(0, "/xdv/leftover")\nimport xdv_no_such_module_qq\n'),
+                           # the module binds sys.path to a new list object (the `sys.path = [...] + sys.path` idiom) before it fails
+                           ('xdv_fail_rebind', 'import sys\nsys.path = [] + sys.path\nraise RuntimeError("late")\n')):
             fp = os.path.join(d, name + '.py')
             with open(fp, 'w') as f:
                 f.write(body)
